@@ -78,6 +78,15 @@ def main():
     common.import_repo(scratch=spec["work"])
     N[0] = spec["workers"]
     SEED[0] = spec["delay_seed"]
+    if spec.get("start"):
+        # the start method of the platform: fork (Linux up to Python 3.13), spawn (macOS, Windows), forkserver
+        # (Linux from 3.14): with the last two the workers re-import the modules instead of inheriting them
+        multiprocessing.set_start_method(spec["start"], force=True)
+        try:
+            import multiprocess
+            multiprocess.set_start_method(spec["start"], force=True)      # pathos' own copy of multiprocessing
+        except Exception:
+            pass
     install()
     work = spec["work"]
     os.makedirs(work, exist_ok=True)
